@@ -1171,7 +1171,8 @@ class SVG:
         g = etree.Element(f"{{{svgns()}}}g")
         g.extend(svg)
 
-        if viewport != viewbox:
+        if "viewBox" in svg.attrib:
+            # maps the viewBox onto the viewport (the identity when they coincide)
             preserve_aspect_ratio = svg.attrib.get("preserveAspectRatio", "xMidYMid")
             transform = Affine2D.rect_to_rect(viewbox, viewport, preserve_aspect_ratio)
         else:
